@@ -99,6 +99,18 @@ class Check:
             self.errors.append(f'internal error {type(e).__name__}: {e}')
         return None
 
+    @staticmethod
+    def restrict(sub, keep):
+        """Keep only the instances / findings of a sub-check whose
+        (where, construct) satisfies ``keep`` - an adopter takes over only
+        the part of a shared rule that is a necessary condition of ITS
+        property."""
+        sub.instances = [r for r in sub.instances
+                         if keep(r['where'], r['what'])]
+        sub.findings = [f_ for f_ in sub.findings
+                        if keep(f_.where, f_.construct)]
+        return sub
+
     def adopt(self, rule, text, sub):
         """Re-state the instances and findings of a sub-check (rules shared
         with another property) under one rule id of this property."""
